@@ -32,10 +32,10 @@ Try(S, fam) ==
            IN  IF LegalPosition(p) THEN Emit(p, fam) /\ Emit(Mirror(p), fam) ELSE TRUE
 
 Near(k, d) == {s \in Sq : s # k /\ (FileOf(s) - FileOf(k)) \in -d..d /\ (RankOf(s) - RankOf(k)) \in -d..d}
-BKs == {63, 62, 60, 59, 56, 39, 31}
+BKs == <<63, 62, 60, 59, 56, 39, 31>>        \* sharded by position in this list
 
 Run ==
-    \A bk \in {s \in BKs : s % NSHARDS = SHARD} : \A wk \in Near(bk, 2) :
+    \A bk \in {BKs[i] : i \in {j \in 1..Len(BKs) : j % NSHARDS = SHARD}} : \A wk \in Near(bk, 2) :
       /\ \A q \in {s \in Sq : Keep(wk, s)} :
            /\ Try({<<bk, PieceOf(1, King)>>, <<wk, W(King)>>, <<q, W(Queen)>>}, "KQK")
            /\ Try({<<bk, PieceOf(1, King)>>, <<wk, W(King)>>, <<q, W(Rook)>>}, "KRK")
